@@ -29,8 +29,11 @@ PROP = {'gen': [],
                'those cells in that order; fill_with leaves every other element unchanged; insert writes only window cells (for '
                'positions whose row-major index is below usize::MAX: ..._upto_usize; from there on - no window has such a position - '
                'only the frame condition is checked per case: a panic or no write outside the window); is_empty says exactly "no cell" '
-               'for every chain-built shape. Roots up to i64::MAX per axis. Model tied to the code by differential runs '
-               'observing shapes, reads (get, get_mut, iter, nth, position, with_position), handed-out addresses and the whole backing '
+               'for every chain-built shape; an iterator at index k yields the k-th window cell and with_position() after k items '
+               'continues with exactly the cells k.. and their positions, for iter and iter_mut, every k '
+               '(C07_iterator_at_index, C07_with_position_continues). Roots up to i64::MAX per axis. Model tied to the code by differential runs '
+               'observing shapes, reads (get, get_mut, iter, nth, position, with_position; iterator programs on one iterator of iter() '
+               'and iter_mut(): next / nth / skip / take / position / index, then with_position and on), handed-out addresses and the whole backing '
                'vector after each mutation (fill, fill_with, clear, set, insert), through every view kind of the API.',
  'level_note': 'Trusted: Coq kernel; hand-written model Surface/Shape.v validated by correspondence; the memory model of rustc is not '
                'modelled (the unsafe block is covered through the arithmetic obligation: distinct in-bounds offsets). Defect found and '
